@@ -159,6 +159,17 @@ def check_stream(ctx, c):
     prog = ctx.prog
     ci = prog.cls(c)
     G = generator_field(prog, c)
+    r121_private_generator(ctx, c, ci, G)
+    isG = lambda n: is_self_attr(n, G)
+    _after_r121(ctx, c, ci, G, isG)
+
+
+def r121_private_generator(ctx, c, ci=None, G=None):
+    """the generator object of a stream is its own: created in the constructor, never re-bound, never handed out (not even as a bound
+    method kept in a field: a deep copy of the stream would keep drawing from the original's generator)"""
+    prog = ctx.prog
+    ci = ci or prog.cls(c)
+    G = G or generator_field(prog, c)
     ctx.rule('R12.1', f'{c}.{G}: fresh Random() assigned only in __init__, never escapes')
     isG = lambda n: is_self_attr(n, G)
     # writers
@@ -194,6 +205,9 @@ def check_stream(ctx, c):
                             where=f'{oc.name if oc else mod.name}.{fn.name}')
     ctx.ob('R12.1', f'{c}:who-may-touch', n_out == 0, sample=f'{c}.{G} is touched only inside {c}: {n_out == 0}')
 
+
+def _after_r121(ctx, c, ci, G, isG):
+    prog = ctx.prog
     # next_bool / next_int that delegate to self.next_float() draw what next_float draws: when next_float is exactly
     # `return self.G.random()` the delegation is replaced by that expression (matching form; next_float itself is checked below)
     nf = prog.simple_return(c, 'next_float')
